@@ -1,5 +1,5 @@
 """C05 -- see DESIGN.md §5 C05. Kernel-level groups (checks/kern.py); IEEE-mode groups in checks/fpgrid.py"""
-from checks import kern, fpgrid
+from checks import kern, fpgrid, modelstep
 
 TECHNIQUE = "symbolic execution of the real integration methods on z3-real proxies with state merging and cuts, plus IEEE-754 (QF_FP) execution of the real grid/keyring size code; SMT obligations (z3, cvc5 portfolio); counterexamples replayed on the unpatched code"
 EXPLANATION = "Real TimedCompartment.resolve_outflows/update/connect/__setitem__, TimedLink and Model.update_links/update_comps on a timed star with 1-5 rows: flush link, ordinary outflow, duration-preserving outflow into a group member with equal/longer/shorter keyring, duration-preserving inflow, plain inflows. Obligations (one-step shift lemma for arbitrary outflow requests): row r at t+1 == row r+1 at t - its recorded outflows + duration-preserving inflow into that row; last row == plain inflows of the step; flush == what is left in row 0; no duration-preserving move leaves row 0; a single row empties every step; moves inside the group keep the row index, surplus rows collapse into the destination's last row. Bounds: micro-graphs as listed per group; |values| <= 1e9, dt in [1/365,5], timescales in [1e-3,1e3]; real arithmetic (tolerance 1e-9 relative, 1e-8 for C03). Outside: larger fan-outs, float rounding, multi-step interactions other than through the arbitrary pre-state."
@@ -7,10 +7,12 @@ GROUP_TIMEOUT = {"quick": 900, "thorough": 3000}
 
 
 def groups(tier):
-    return kern.kernel_groups("C05", tier) + fpgrid.c05_fp_groups(tier)
+    return kern.kernel_groups("C05", tier) + modelstep.groups("C05", tier) + fpgrid.c05_fp_groups(tier)
 
 
 def replay(rec):
     if rec["replay"].get("group") in ("grid", "keyring"):
         return fpgrid.fp_replay(rec)
+    if rec["replay"].get("group", "").startswith("model["):
+        return modelstep.replay("C05", rec)
     return kern.kernel_replay("C05", rec)
